@@ -7,20 +7,31 @@
 (* the dictionary out (three label-form assignments); the vector lists, for every *)
 (* present key and for absent keys, what the specification requires of            *)
 (* tlb.ProveKeyInHashmap: a proof satisfying ProofOK and the value / an error.    *)
+(* Value mode "valueref": for two keys that differ in the last bit only, the      *)
+(* value of the first gets a reference to a cell equal to the leaf of the second  *)
+(* (the sibling that a prover prunes).                                            *)
 EXTENDS MerkleProof, Dict_Pool
 CONSTANTS MaxAbsent
 N == 8
 KeyPool == Pool(N) \cup { <<0,1,0,0,0,0,0,0>>, <<1,1,0,0,0,0,0,0>> }
 FormSeqs == { <<"short","short","short">>, <<"long","same","short">>, <<"same","long","long">> }
 VARIABLES kset, vmode, forms, out
+Neighbours(S) == {p \in S \X S : p[1] # p[2] /\ SubSeq(p[1], 1, N - 1) = SubSeq(p[2], 1, N - 1)}
 Init == /\ kset \in {S \in SUBSET KeyPool : Cardinality(S) >= 1 /\ Cardinality(S) <= MaxSet}
-        /\ vmode \in {"distinct", "same"} /\ forms \in FormSeqs /\ out = "todo"
+        /\ vmode \in {"distinct", "same", "valueref"} /\ forms \in FormSeqs /\ out = "todo"
+        /\ vmode = "valueref" => Neighbours(kset) # {}
 ValOf(k) == IF vmode = "same" THEN Val(Z(N)) ELSE Val(k)
 TableJson(T) == [i \in 1..Len(T) |-> [b |-> BitsToStr(T[i].b), x |-> T[i].x, m |-> T[i].m, r |-> [j \in 1..Len(T[i].r) |-> T[i].r[j] - 1]]]
 Vec == LET m == {<<k, ValOf(k)>> : k \in kset}
            s == SortedItems(m)
-           items == [i \in 1..Len(s) |-> [k |-> s[i][1], v |-> [b |-> s[i][2], r |-> <<>>]]]
-           T == EncEdge(items, 0, N, forms, <<>>)               \* Hashmap (not HashmapE): the root row is the first edge
+           items0 == [i \in 1..Len(s) |-> [k |-> s[i][1], v |-> [b |-> s[i][2], r |-> <<>>]]]
+           T0 == EncEdge(items0, 0, N, forms, <<>>)             \* Hashmap (not HashmapE): the root row is the first edge
+           nb == IF vmode = "valueref" THEN CHOOSE p \in Neighbours(kset) : TRUE ELSE <<>>
+           \* valueref: the leaf of nb[1] gets one reference, to a new last row that equals the leaf of nb[2]
+           T == IF vmode # "valueref" THEN T0
+                ELSE LET la == Lookup(T0, 1, N, nb[1]).leaf  lb == Lookup(T0, 1, N, nb[2]).leaf
+                     IN Append([T0 EXCEPT ![la].r = <<Len(T0) + 1>>], T0[lb])
+           items == [i \in 1..Len(s) |-> [k |-> s[i][1], v |-> [b |-> s[i][2], r |-> IF vmode = "valueref" /\ s[i][1] = nb[1] THEN <<Len(T)>> ELSE <<>>]]]
            IT == InfoTable(T)
            absentSorted == SortSeq(SetToSeq(KeyPool \ kset), BitsLess)
            na == Len(absentSorted)
@@ -31,7 +42,7 @@ Vec == LET m == {<<k, ValOf(k)>> : k \in kset}
        IN [t |-> "dict", n |-> N, cells |-> TableJson(T), roots |-> <<0>>, forms |-> forms, vmode |-> vmode,
            keys |-> [i \in 1..Len(s) |-> BitsToStr(s[i][1])] \o [i \in 1..Len(absent) |-> BitsToStr(absent[i])],
            exp |-> [i \in 1..Len(s) |-> [found |-> TRUE, v |-> BitsToStr(s[i][2])]] \o [i \in 1..Len(absent) |-> [found |-> FALSE, v |-> ""]],
-           twin |-> [i \in 1..Len(s) |-> TwinForkOnPath(T, IT, 1, N, s[i][1])],
+           twin |-> [i \in 1..Len(s) |-> KeyClass(T, IT, 1, N, s[i][1]) # "plain"],
            selfcheck |-> (D.ok /\ D.items = items /\ LevelZero(T) /\ WellFormed(T)
                           /\ (\A i \in 1..Len(s) : LET o == Lookup(T, 1, N, s[i][1]) IN o.ok /\ o.found /\ o.v.b = s[i][2])
                           /\ (\A j \in 1..Len(absent) : LET oa == Lookup(T, 1, N, absent[j]) IN oa.ok /\ ~oa.found))]
